@@ -1376,7 +1376,7 @@ func nameTokens(r *rand.Rand) string {
 func generate(r *rand.Rand, tier string) []string {
 	n := 1500
 	if tier == "thorough" {
-		n = 40000
+		n = 38000
 	}
 	g := &gen{r: r}
 	var out []string
@@ -1469,7 +1469,7 @@ func generate(r *rand.Rand, tier string) []string {
 	// by the common decoder after the HCL side was marshalled
 	nh := 150
 	if tier == "thorough" {
-		nh = 2500
+		nh = 1500
 	}
 	for i := 0; i < nh; i++ {
 		d := g.describe()
@@ -1480,7 +1480,7 @@ func generate(r *rand.Rand, tier string) []string {
 	// from it; and strings as coalesce(local.z, "value") with z = null (a local may hold null and be referenced later)
 	nn := 120
 	if tier == "thorough" {
-		nn = 2000
+		nn = 1200
 	}
 	for i := 0; i < nn; i++ {
 		d := g.describe()
@@ -1493,7 +1493,7 @@ func generate(r *rand.Rand, tier string) []string {
 	// block scalars — the places where a line terminator of the FILE stands inside a value
 	ne := 140
 	if tier == "thorough" {
-		ne = 2500
+		ne = 1500
 	}
 	for i := 0; i < ne; i++ {
 		d := g.describe()
